@@ -88,7 +88,7 @@ Fixpoint encode_direct_bits (e : renc) (value : Z) (count : nat) : renc :=
 Definition renc_finish (e : renc) : renc :=
   shift_low (shift_low (shift_low (shift_low (shift_low e)))).
 
-Definition renc_bytes (e : renc) : list Z := rev (re_out e).
+Definition renc_bytes (e : renc) : list Z := frev (re_out e).
 
 (* get_pending_size for the LZMA2 buffer encoder: pos + cache_size + 5 - 1 *)
 Definition renc_pending_size (e : renc) : Z := zlen (re_out e) + re_cache_size e + 5 - 1.
